@@ -11,6 +11,7 @@ struct VT
   St st = RUNNABLE;
   const void *on = nullptr;
   int join_target = -1;
+  bool timed = false, timed_out = false; // blocked in a timed cv wait / woken by its (virtual) timeout
   real_cv wake;
   real_thread th;
 };
@@ -69,7 +70,7 @@ static void handover(std::unique_lock<real_mutex> &lk, int kind)
     cur_runnable = true;
   }
   for (auto &t : g.ts)
-    if (t->st == RUNNABLE && t->id != tl_self)
+    if ((t->st == RUNNABLE || (t->st == BLK_CV && t->timed)) && t->id != tl_self)
       ids[n++] = t->id;
   if (n == 0)
   {
@@ -113,6 +114,12 @@ static void handover(std::unique_lock<real_mutex> &lk, int kind)
   int next = ids[idx];
   if (next == tl_self)
     return;
+  if (g.ts[next]->st == BLK_CV)
+  {
+    // a thread in a timed wait picked although nobody notified it: its timeout fires now
+    g.ts[next]->st = RUNNABLE;
+    g.ts[next]->timed_out = true;
+  }
   g.out.switches++;
   if (cur_runnable)
     g.out.preemptions++;
@@ -269,6 +276,36 @@ void condition_variable::wait(std::unique_lock<mutex> &ul)
     block(lk, BLK_CV, this);
   }
   m->lock();
+}
+bool condition_variable::timed_wait(std::unique_lock<mutex> &ul)
+{
+  if (!g.active)
+    return true;
+  point(K_CVWAIT, this);
+  mutex *m = ul.mutex();
+  bool to;
+  {
+    std::unique_lock<real_mutex> lk(g.m);
+    g.out.cvwaits++;
+    VT *me = g.ts[tl_self].get();
+    m->release_in_wait();
+    waiters.push_back(tl_self);
+    me->timed = true;
+    me->timed_out = false;
+    block(lk, BLK_CV, this);
+    me->timed = false;
+    to = me->timed_out;
+    me->timed_out = false;
+    if (to)
+      for (size_t i = 0; i < waiters.size(); i++)
+        if (waiters[i] == tl_self)
+        {
+          waiters.erase(waiters.begin() + i);
+          break;
+        }
+  }
+  m->lock();
+  return to;
 }
 void condition_variable::notify_all()
 {
